@@ -32,11 +32,15 @@ SIGS = ('oneline', 'multiline')
 FEATURES = ('comment', 'comment_bs', 'continuation', 'triple_under', 'raw_bs_nl', 'bytes', 'fstring', 'str_bs_lines', 'blank_ws',
             'semicolon', 'exotic')
 LAMBDAS = ('single', 'two_same_sig', 'two_diff_sig', 'semicolon_diff', 'semicolon_same', 'nested_outer', 'nested_inner', 'spanning',
-           'default_arg', 'call_arg', 'in_function', 'wraps_wrapper', 'wraps_method')
+           'default_arg', 'call_arg', 'in_function', 'wraps_wrapper', 'wraps_method',
+           # lambdas whose __name__ was changed (functools.wraps of a named function, direct assignment)
+           'renamed', 'renamed_wraps', 'renamed_default_arg')
 REDEFS = ('same_size_same_mtime', 'same_size_newer', 'longer', 'shorter', 'moved_down')
 HANDOVER = ('nested_def_defaults', 'nested_lambda_defaults', 'nested_kwonly_defaults', 'own_defaults_only', 'two_levels',
             # two lambdas starting on one line, converted one after the other by the same transpiler
-            'two_lambdas_one_line', 'two_lambdas_one_line_reversed')
+            'two_lambdas_one_line', 'two_lambdas_one_line_reversed',
+            # a wrapper without retrievable source (built by exec) that carries __wrapped__: an error, never the wrapped function
+            'no_source_wrapper')
 _S = {'tier': 'quick'}
 
 
@@ -207,6 +211,19 @@ def lam_source(item, uid):
     L.append(I + 'g = lambda q: q - %d' % U2)
     L.append(I + 'return lambda a: a + %d' % U1)
     L.append('TARGET = outer()')
+  elif kind == 'renamed':
+    L.append('TARGET = lambda a: a + %d' % U1)
+    L.append("TARGET.__name__ = 'renamed'")
+  elif kind == 'renamed_wraps':
+    L.append('def named(a):')
+    L.append(I + 'return a - %d' % U2)
+    L.append('TARGET = functools.wraps(named)(lambda a: a + %d)' % U1)
+  elif kind == 'renamed_default_arg':
+    L.append('def named(a):')
+    L.append(I + 'return a - %d' % U2)
+    L.append('def h(k=functools.wraps(named)(lambda a: a + %d)):' % U1)
+    L.append(I + 'return k')
+    L.append('TARGET = h()')
   elif kind == 'wraps_wrapper':
     L.append('def deco(fn):')
     L.append(I + '@functools.wraps(fn)')
@@ -267,7 +284,7 @@ def check_item(item, uid, corrupt=False):
   try:
     target = mod.TARGET
     tree = ast.parse(src)
-    is_lam = getattr(target, '__name__', '') == '<lambda>'
+    is_lam = getattr(getattr(target, '__code__', None), 'co_name', '') == '<lambda>'
     if is_lam:
       cands = [n for n in ast.walk(tree) if isinstance(n, ast.Lambda) and has_const(n, exp_const)]
       # the innermost lambda carrying the constant, unless the target is the outer one of a nest
@@ -419,11 +436,46 @@ def check_lambda_pair(item, uid):
   return src, viol, 'ok'
 
 
+def check_no_source_wrapper(item, uid):
+  from malt.pyct import transpiler
+  import functools
+  src = 'def real(a):\n%sreturn a + %d\n\n\nTARGET = real\n' % (INDENTS[item[1]], uid)
+  name = 'c15nosrc_%d' % uid
+  mod, path = load_module(src, name)
+  viol = []
+
+  class Ident(transpiler.PyToPy):
+    def get_caching_key(self, ctx):
+      return 0
+
+    def get_extra_locals(self):
+      return {}
+
+    def transform_ast(self, node, ctx):
+      return node
+  try:
+    g = {'real': mod.real}
+    exec('def wrapper(a):\n    return real(a) + 1000\n', g)  # pylint:disable=exec-used
+    w = functools.update_wrapper(g['wrapper'], mod.real)
+    try:
+      new_f, _, _ = Ident().transform(w, None)
+    except Exception:  # pylint:disable=broad-except
+      return src, [], 'ok'      # no source: any explicit error is the right answer
+    if new_f(5) != w(5):
+      viol.append(('different-function', 'a wrapper without source carrying __wrapped__ was converted to something that returns %r, the wrapper returns %r' % (new_f(5), w(5))))
+  finally:
+    unload(name, path)
+    util.purge_generated()
+  return src, viol, 'ok'
+
+
 def check_handover(item, uid):
   from malt.pyct import transpiler
   import copy
   if item[2].startswith('two_lambdas'):
     return check_lambda_pair(item, uid)
+  if item[2] == 'no_source_wrapper':
+    return check_no_source_wrapper(item, uid)
   src = handover_source(item, uid)
   name = 'c15hand_%d' % uid
   mod, path = load_module(src, name)
